@@ -109,6 +109,20 @@ static int racy_reset;  /* y&4 */
 static int rs_called, rs_done, rs_ret_before, rs_started_at_ret; /* the concurrent reset of a racy phase */
 static int free_by_waiter, free_phase, freed_by_waiter; /* y&8; the current phase is the free phase; done */
 
+/* the concurrent resetter polls a counter of the monitors (user-level busy waiting with an occasional yield, bounded),
+ * then lets 0-2 schedule points pass so that the reset lands at different steps of the set in flight */
+static void reset_trigger(actor *a, const int *started, int want)
+{
+    for (int spin = 0; a->kind != AK_TASK && *(volatile const int *)started < want && spin < 600; spin++) {
+        if (spin % 8 == 7)
+            relax(a);
+        else
+            vs_point();
+    }
+    for (int d = sc_rnd(3); d > 0; d--)
+        vs_point();
+}
+
 enum { R_SET = 0, R_WAIT, R_TEST, R_TASKWAIT, R_RESET };
 typedef struct {
     int role, nops;
@@ -246,10 +260,9 @@ static void ev_body(actor *a)
                 relax(a);
         }
     } else if (ri->role == R_RESET) {
-        /* reset concurrently with the sets of this phase: once `nops` of them have begun (tasklets cannot wait) */
-        for (int spin = 0; a->kind != AK_TASK && e_started < ri->nops && spin < 400; spin++)
-            relax(a);
-        vs_log("apiCall reset E0");
+        /* reset concurrently with the sets of this phase: as soon as the `nops`-th of them has begun (tasklets cannot wait) */
+        reset_trigger(a, &e_started, ri->nops);
+        vs_note("apiCall reset E0");
         rs_called = 1;
         rs_ret_before = e_rets;
         int rc = ABT_eventual_reset(E0);
@@ -385,10 +398,10 @@ static void fut_body(actor *a)
             VSA_CHECK(rcf == ABT_SUCCESS && F0 == ABT_FUTURE_NULL, "ABT_future_free by A%d returned %d", a->id, rcf);
         }
     } else if (ri->role == R_RESET) {
-        /* reset concurrently with the sets of this phase: once `nops` of them have begun (tasklets cannot wait) */
-        for (int spin = 0; a->kind != AK_TASK && f_started < ri->nops && spin < 400; spin++)
-            relax(a);
-        vs_log("apiCall reset F0");
+        /* reset concurrently with the sets of this phase: as soon as the `nops`-th of them has begun, i.e. typically
+         * while it is in flight and the earlier ones have returned (tasklets cannot wait) */
+        reset_trigger(a, &f_started, ri->nops);
+        vs_note("apiCall reset F0");
         rs_called = 1;
         rs_ret_before = f_rets;
         int rc = ABT_future_reset(F0);
@@ -649,7 +662,13 @@ int main(int argc, char **argv)
                 a->kind = AK_TASK;
             } else {
                 ri->role = R_RESET;
-                ri->nops = sc_rnd(total + 1); /* reset once this many sets have begun */
+                /* reset once this many sets have begun; mostly late in the phase: only a reset that races with one of
+                 * the last sets (when the surplus ones can no longer refill the object) leaves a visible trace */
+                ri->nops = total ? 1 + sc_rnd(total) : 0;
+                if (isfut && f_n >= 2 && sc_rnd(3)) {
+                    int lo = total - f_n + 2;
+                    ri->nops = lo + sc_rnd(total - lo + 1);
+                }
                 a->kind = kr < extpct ? AK_EXT : (kr < extpct + taskpct ? AK_TASK : AK_ULT);
             }
             vs_note("actor A%d kind=%s es=%d", i, AKN[a->kind], a->es);
